@@ -353,10 +353,10 @@ func (e *Engine) rebuild(x *Term, a []*Term) *Term {
 
 func foldFPToInt(tt *TermTable, w int, a *Term, signed bool) *Term {
 	f := a.fval()
-	bf := new(big.Float).SetFloat64(f)
 	if f != f || f > 1e300 || f < -1e300 {
 		return tt.BVConst(w, 0)
 	}
+	bf := new(big.Float).SetFloat64(f)
 	bi, _ := bf.Int(nil)
 	return tt.BigConst(w, bi)
 }
@@ -901,4 +901,135 @@ func sortedKeys(m map[string]int) []string {
 	}
 	sort.Strings(ks)
 	return ks
+}
+
+// symptr is a pointer into an array at a symbolic (already bounds-checked)
+// index; only loads are supported.
+type symptr struct {
+	arr array
+	idx sv
+}
+
+func (e *Engine) boundsFork(s sv, n int) {
+	w := s.t.S.Width()
+	nn := e.tt.BVConst(w, uint64(n))
+	var inRange *Term
+	if isSigned(s.k) {
+		inRange = e.tt.And(e.tt.BVCmp("bvsle", e.tt.BVConst(w, 0), s.t), e.tt.BVCmp("bvslt", s.t, nn))
+	} else {
+		inRange = e.tt.BVCmp("bvult", s.t, nn)
+	}
+	if !e.fork(inRange) {
+		panic(rtPanic{fmt.Sprintf("runtime error: index out of range [symbolic] with length %d", n)})
+	}
+}
+
+// mergeLoad loads arr[idx] for a symbolic idx: scalars, and structures that
+// differ in scalar slots only, are merged into ite chains.
+func (e *Engine) mergeLoad(sp *symptr) value {
+	a := sp.arr
+	w := sp.idx.t.S.Width()
+	if _, ok := scalarKind(a[0]); ok {
+		return e.indexLoad([]value(a), sp.idx)
+	}
+	first, ok := a[0].(structure)
+	if !ok {
+		panic(unsupported{"load through symbolic pointer of non-mergeable element"})
+	}
+	out := make(structure, len(first))
+	for slot := range first {
+		same := true
+		for _, x := range a {
+			xs, ok := x.(structure)
+			if !ok || len(xs) != len(first) {
+				panic(unsupported{"load through symbolic pointer: heterogeneous elements"})
+			}
+			if !sameSlot(xs[slot], first[slot]) {
+				same = false
+				break
+			}
+		}
+		if same {
+			out[slot] = first[slot]
+			continue
+		}
+		k, ok := scalarKind(first[slot])
+		if !ok {
+			panic(unsupported{"load through symbolic pointer: non-scalar slot differs"})
+		}
+		col := make([]value, len(a))
+		for i := range a {
+			col[i] = a[i].(structure)[slot]
+		}
+		if t := e.progression(col, sp.idx, k); t != nil {
+			out[slot] = e.fromTerm(t, k)
+			continue
+		}
+		acc := e.toTerm(a[len(a)-1].(structure)[slot])
+		for i := len(a) - 2; i >= 0; i-- {
+			acc = e.tt.Ite(e.tt.Eq(sp.idx.t, e.tt.BVConst(w, uint64(i))), e.toTerm(a[i].(structure)[slot]), acc)
+		}
+		out[slot] = e.fromTerm(acc, k)
+	}
+	return out
+}
+
+func sameSlot(a, b value) bool {
+	switch x := a.(type) {
+	case rtype:
+		y, ok := b.(rtype)
+		return ok && types.Identical(x.t, y.t)
+	case rvflag:
+		y, ok := b.(rvflag)
+		return ok && x == y
+	case nil:
+		return b == nil
+	}
+	if ka, ok := scalarKind(a); ok {
+		kb, ok2 := scalarKind(b)
+		if !ok2 || ka != kb || isSym(a) || isSym(b) {
+			return false
+		}
+		return a == b
+	}
+	return false
+}
+
+// progression: when the concrete integer elements form an exact arithmetic
+// progression a[i] = a[0] + i*d, the load at symbolic index idx is the term
+// a[0] + idx*d (a faithful closed form of the table, computed from the
+// table's actual contents).
+func (e *Engine) progression(col []value, idx sv, k types.BasicKind) *Term {
+	if len(col) < 3 || isFloatKind(k) || k == types.Bool {
+		return nil
+	}
+	for _, c := range col {
+		if isSym(c) {
+			return nil
+		}
+	}
+	w := kindWidth(k)
+	a0 := e.toTerm(col[0]).C
+	d := (e.toTerm(col[1]).C - a0) & mask(w)
+	for i, c := range col {
+		if e.toTerm(c).C != (a0+uint64(i)*d)&mask(w) {
+			return nil
+		}
+	}
+	tt := e.tt
+	it := idx.t
+	iw := it.S.Width()
+	switch {
+	case iw > w:
+		it = tt.Extract(w-1, 0, it)
+	case iw < w:
+		it = tt.ZeroExt(w-iw, it) // idx is already known to be in range (non-negative)
+	}
+	var scaled *Term
+	if d == 1 {
+		scaled = it
+	} else {
+		scaled = tt.BVBin("bvmul", it, tt.BVConst(w, d))
+	}
+	return tt.BVBin("bvadd", tt.BVConst(w, a0), scaled)
 }
